@@ -1,3 +1,3 @@
--- This module serves as the root of the `TorchDataVerif` library.
--- Import modules here that should be built as part of the library.
-import TorchDataVerif.Basic
+-- Root of the `TorchDataVerif` library: models, proofs and property theorems.
+import TorchDataVerif.Model.Incr
+import TorchDataVerif.Drv.Incr
